@@ -30,6 +30,7 @@ RULE = (
     "nested statements in every program run). Both populations also run inside the handler of an unrelated exception "
     "and with exception objects that test false. Non-trivial: >=2 entries and (a block exception or an exit that raises/suppresses "
     "or a history op); distinct = distinct (entries, outcome, history) by 64-bit hash."
+    " Extensions of rounds 9-12: exits raising KeyboardInterrupt / SystemExit, re-raising the block's own object, enters failing with AttributeError, exits pushed during an enter, registration before the block is entered, callback keywords named like the machinery's parameters, all three exit arguments compared."
 )
 COMPONENTS = COMPONENTS_BASE
 ASSUMPTIONS = [
